@@ -597,8 +597,8 @@ var (
 	c18Keys    = []string{"A", "B", "K_1", "a.b-c", "x[0]", "exportX", "ex", "9z", "_", "é²", "世"}
 	c18NB      = []string{"", "", "", " ", "\t", "  ", " \t", "\r", "\u00a0", "\u0085", "\x0b", "\x0c"}
 	c18ExpWs   = []string{" ", "\t", "  ", " \t", "\r", "\x0c", " \u00a0"}
-	c18UnqToks = []string{"a", "b", "1", "$A", "${B}", "${A:-d}", "${Z-$A}", "$$", "#", "=", ":", "\\", "\\n", "\"", "'", "é", "-", "/", "${A:?m}", "$", "{", "}"}
-	c18Chars   = []string{"a", "b", "A", "1", "0", "7", "8", "$", "{", "}", "#", " ", "=", ":", "\n", "\t", "-", "\r", "é", "\u00a0"}
+	c18UnqToks = []string{"a", "b", "1", "$A", "${B}", "${A:-d}", "${Z-$A}", "$$", "#", "=", ":", "\\", "\\n", "\"", "'", "é", "-", "/", "${A:?m}", "$", "{", "}", "€", "→", "😀", "e\u0301", "、"}
+	c18Chars   = []string{"a", "b", "A", "1", "0", "7", "8", "$", "{", "}", "#", " ", "=", ":", "\n", "\t", "-", "\r", "é", "\u00a0", "€", "😀", "\u0301", "\ue000"}
 	c18Escs    = []string{"n", "t", "r", "a", "b", "f", "v", "\\", "$", "0", "1", "x", "u", " ", "\n", "{", "A"}
 )
 
@@ -695,7 +695,7 @@ func genBadTail(ctx *core.Ctx) *badTail {
 	rest := pick(ctx, []string{"", "\n", "\nB=2\n"})
 	switch ctx.Rng.Intn(7) {
 	case 0: // a character outside the key alphabet
-		bad := pick(ctx, []string{"$", "@", "!", "\"", "'", "/", "\\", "{", "}", "(", "%", ",", ";", "*", "&", "+", "~", "?"})
+		bad := pick(ctx, []string{"$", "@", "!", "\"", "'", "/", "\\", "{", "}", "(", "%", ",", ";", "*", "&", "+", "~", "?", "€", "→", "😀", "\u0301", "、", "\ue000"})
 		k := pick(ctx, c18Keys)
 		i := ctx.Rng.Intn(len(k) + 1)
 		return &badTail{Kind: "invalid-key:bad-char", Text: k[:i] + bad + k[i:] + "=" + val + rest, Classes: []string{"unexpectedChar", "keySpace"}}
@@ -837,7 +837,7 @@ func c18Grammar(ctx *core.Ctx) {
 	}
 }
 
-var c18Mut = []rune{'"', '\'', '\\', '\n', '=', ':', '#', '$', ' ', '{', '}', 'A', '0', '\r', '\u00a0', '\u0085', '\t'}
+var c18Mut = []rune{'"', '\'', '\\', '\n', '=', ':', '#', '$', ' ', '{', '}', 'A', '0', '\r', '\u00a0', '\u0085', '\t', '€', '😀', '\u0301'}
 
 func mutate(ctx *core.Ctx, r []rune) string {
 	r = append([]rune(nil), r...)
@@ -859,7 +859,7 @@ func mutate(ctx *core.Ctx, r []rune) string {
 
 // 3. random token strings over a wide alphabet (malformed stream)
 func c18Random(ctx *core.Ctx) {
-	wide := []string{"A", "B", "=", "=", ":", " ", " ", "\n", "\n", "#", " #", "\"", "\"", "'", "'", "\\", "\\", "$", "$A", "${A}", "${B:-x}", "${", "}",
+	wide := []string{"€", "→", "😀", "\u0301", "、", "A", "B", "=", "=", ":", " ", " ", "\n", "\n", "#", " #", "\"", "\"", "'", "'", "\\", "\\", "$", "$A", "${A}", "${B:-x}", "${", "}",
 		"export ", "export", "\t", "\r\n", "\r", "\u00a0", "\u0085", "\x0b", "\x0c", "0", "1", "7", "9", "n", "x", "\\n", "\\0", "\\$", "_", ".", "-", "[", "]", "a", "é", "世", "²"}
 	for i := 0; i < ctx.Pick(80000, 2500000); i++ {
 		n := 1 + ctx.Rng.Intn(16)
